@@ -12,7 +12,7 @@ DESCRIPTION = {
              "router aborted; the illegal message raises ProtocolError and is not acted on; GOODBYE written at most once and a peer GOODBYE answered iff we had not sent one; once "
              "the transport is gone every request Deferred/Future is completed with an error (already at leave time when the library's own onLeave ran) and call/publish/subscribe/"
              "register raise TransportLost.  The reason URI and message on the router's GOODBYE are drawn per history (six URIs including wamp.close.goodbye_and_out and an error URI): whether it is answered depends only on who initiated.  Non-trivial = >=1 outstanding request at the end and an exit path other than WELCOME-leave-GOODBYE; distinct by (history, loss position)."),
-    "assumptions": ["when this side aborts the attempt (failing onChallenge, onWelcome veto) the library fires leave: permitted but not required", "re-joining on the same transport is not generated"],
+    "assumptions": ["re-joining on the same transport is not generated"],
 }
 
 KINDS = ["call", "publish", "subscribe", "register", "unsubscribe", "unregister"]
@@ -197,7 +197,7 @@ class Run:
         elif b == "raise":
             if sent != ["Abort"]:
                 self.fail("failing-onChallenge-not-aborted", repr(sent))
-            self.local_abort = True
+            self.local_abort = "onChallenge"
             self.phase = "aborted-locally"
 
     def do_welcome(self):
@@ -213,7 +213,7 @@ class Run:
                 self.fail("onWelcome-veto-not-aborted", repr(self.sent_names(n_sent)))
             if any(e[0] == "join" for e in self.w.events):
                 self.fail("joined-despite-onWelcome-veto", "")
-            self.local_abort = True
+            self.local_abort = "onWelcome"
             self.phase = "aborted-locally"
             return
         if b == "pending":
@@ -460,8 +460,9 @@ class Run:
             self.fail("joined-session-ended-without-leave", repr(ev))
         if self.router_aborted and "leave" not in ev:
             self.fail("router-abort-without-leave", repr(ev))
-        if "leave" in ev and not ("join" in ev or self.router_aborted or self.local_abort):
-            self.fail("leave-without-join-or-abort", repr(ev))
+        if "leave" in ev and not ("join" in ev or self.router_aborted):
+            # "leave fired exactly when a joined session ends or the router aborts": a session that never joined and that this side aborted itself has nothing to leave
+            self.fail("leave-without-join-or-router-abort|" + ("after-failing-" + self.local_abort if self.local_abort else "no-abort-at-all"), repr(ev))
         self.check_goodbye_count()
         if self.transport_gone:
             if "disconnect" not in ev:
